@@ -1,4 +1,6 @@
+use anyhow::{ensure, Result};
 use bytes::{Buf, BufMut, Bytes, BytesMut};
+use std::mem::size_of;
 
 pub fn encode_message_batch(batch: Vec<Bytes>) -> Bytes {
     let mut bytes = BytesMut::new();
@@ -14,15 +16,36 @@ pub fn encode_message_batch(batch: Vec<Bytes>) -> Bytes {
     bytes.into()
 }
 
-pub fn decode_message_batch(mut bytes: Bytes) -> Vec<Bytes> {
+pub fn decode_message_batch(mut bytes: Bytes) -> Result<Vec<Bytes>> {
+    const LEN_MARKER_SIZE: usize = size_of::<u64>();
+
+    ensure!(
+        bytes.remaining() >= LEN_MARKER_SIZE,
+        "Message batch is missing its message count"
+    );
     let num_of_messages = bytes.get_u64();
+
+    // Every message carries at least a length marker, so a count that exceeds what the
+    // remaining bytes could hold is malformed. This also bounds the allocation below.
+    ensure!(
+        num_of_messages <= (bytes.remaining() / LEN_MARKER_SIZE) as u64,
+        "Message batch declares more messages than it contains"
+    );
     let mut messages = Vec::with_capacity(num_of_messages as usize);
 
     for _ in 0..num_of_messages {
+        ensure!(
+            bytes.remaining() >= LEN_MARKER_SIZE,
+            "Message batch is missing a message length"
+        );
         let message_len = bytes.get_u64();
+        ensure!(
+            message_len <= bytes.remaining() as u64,
+            "Message batch declares a message longer than the data it contains"
+        );
         let message_bytes = bytes.split_to(message_len as usize);
         messages.push(message_bytes);
     }
 
-    messages
+    Ok(messages)
 }
